@@ -52,15 +52,18 @@ class C01(Config):
         "axioms: none (every theorem is closed under the global context)",
         "vlib/props/c01.py constant extractors (NULLIFIER_MAP_RETENTION_BLOCKS, PRUNING_DEPTH, DEFAULT_TX_EXPIRY_DELTA, "
         "MARGINAL_FEE) and SQL-clause shape checks (tx_unexpired_condition, Unspent nullifier query)",
-        "harness/wallet/src/hist.rs: block generator (ground truth of ownership and nullifiers), canonical dump (SQL "
+        "harness/hist/src/lib.rs (crate vhist): block generator (ground truth of ownership and nullifiers), canonical dump (SQL "
         "over TestDb::conn(), 32-byte ids replaced by generation-order integers), error classifier",
         "SQLite / rusqlite execute the SQL as written; trial decryption finds exactly the generator's owned outputs (C05)",
     ]
     assumptions = [
         "every best chain is valid: heights consecutive from the wallet birthday, txids unique, every nullifier "
         "revealed at most once, a note is spent strictly above the block that creates it (consensus: the anchor of a "
-        "spend is the final treestate of an earlier block); over all branches a txid names one transaction and an "
-        "output nullifier one output (valid_universe; checked on every generated history by wf_case)",
+        "spend is the final treestate of an earlier block); over all branches a txid names one transaction up to the "
+        "nullifiers of its outputs and a nullifier names one output (pool, txid, index) (weak_universe; its boolean "
+        "form univ_ok is checked on every generated history by wf_case); each best chain reveals, of an output it "
+        "contains, only the nullifier of its own version (own_versions: a spend of the nullifier a note had on an "
+        "abandoned branch is not valid on this chain)",
         "the height reached by truncate_to_height (chosen from the commitment-tree checkpoints, C06) and the "
         "availability of get_wallet_summary (scan-progress estimate) are taken from the implementation",
         "transaction expiry heights stay unknown (NULL): compact-block scanning never learns them; the model keeps the "
@@ -72,17 +75,16 @@ class C01(Config):
         "balance = ledger and equality of balances hold when no orphaned transaction is alive (un-mined rows expired "
         "at tip+1; for single-chain histories also: every block scanned); with live orphans only the per-dump "
         "balance rule (chk_rule) is checked",
-        "the bridge theorem covers the ledger clause of prop_case (chk_ledger) for single-chain histories; the other "
-        "clauses of prop_case (tables against ground truth, balance rule on the dump, linear-scan comparison) and "
-        "histories with forks are not bridged (they are evaluated on every run)",
+        "the bridge theorems cover the ledger clause of prop_case (chk_ledger), for single-chain histories and for "
+        "histories with forks (fork_hist); the other clauses of prop_case (tables against ground truth, balance rule "
+        "on the dump, linear-scan comparison) are not bridged (they are evaluated on every run)",
         "scan_idempotent is proved for the observable ledger (scanned set, tip, notes and spent status of scanned "
         "outputs, balances), not for the nullifier map (a re-scan may add entries)",
         "Sapling outputs re-mined at another commitment-tree position after a reorg (same txid and output index, new "
-        "nullifier): the MODEL covers them (note rows are keyed by (pool, txid, output index), the upsert replaces the "
-        "nullifier), the generator produces and later spends them, run_case and prop_case (ground truth + linear-scan "
-        "comparison) check them; the THEOREMS exclude them through the guard valid_universe.vu_tx ('a txid names one "
-        "transaction including the nullifiers of its outputs'), under which upsert-by-identity equals upsert-by-nullifier "
-        "(Proofs.put_note_keyed)",
+        "nullifier) are inside the domain of the C01_forks_* theorems (weak_universe / reach_w; note rows keyed by "
+        "(pool, txid, output index), the upsert replaces the nullifier; Properties.ex_remined_reach); the soundness "
+        "clause for recorded spenders is correspondingly weaker there: a spender reveals the nullifier of SOME "
+        "version of the output; the former statements hold over valid_universe (C01_strict_forks_*)",
         "commitment-tree failures of scan_cached_blocks (Err ETree, shardtree defect C06-F2) and the height reached by "
         "truncate_to_height are inputs of the model (C06); transparent coins are not modelled",
     ]
